@@ -346,6 +346,17 @@ def _install_native_log_probe():
     _NATIVE_LOG["installed"] = True
 
 
+def unstubbed(f):
+    """The real function f even when a lemma installs a contract stub for it (used by recursive
+    contracts: the outermost call runs the real body, nested calls go through the contract)."""
+    return f
+
+
+class _Unstubbed:
+    def __init__(self, func):
+        self.func = func
+
+
 def assume(cond):
     """Restrict the inputs considered (a precondition inside a lemma). Natively: skip the run."""
     if not cond:
@@ -387,6 +398,7 @@ def _register_helper_models():
         return len(I.path.ghost.get("g:log.exception", [])) > 0
 
     stdlib.MODELS[exception_logged] = m_exception_logged
+    stdlib.MODELS[unstubbed] = lambda I, a, k: _Unstubbed(getattr(a[0], "__func__", a[0]))
     stdlib.MODELS[ghost] = m_ghost
     stdlib.MODELS[nondet] = m_nondet
     stdlib.MODELS[assume] = m_assume
